@@ -374,10 +374,18 @@ func runCheck(args []string) int {
 	os.RemoveAll(replayDir)
 	os.MkdirAll(replayDir, 0o755)
 	var knownHit []string
+	var illFormed []string
 	for _, ob := range failed {
 		if k, ok := knownBy[ob.Name]; ok {
 			lines = append(lines, fmt.Sprintf("KNOWN-FINDING: property=%s %s [%s] (%s)", id, k.What, ob.Name, k.Input))
 			knownHit = append(knownHit, ob.Name)
+			continue
+		}
+		if errText := solverRejected(ob); errText != "" {
+			// every solver rejected the VC text itself (ill-formed SMT: a clash between spec
+			// definitions, an encoder bug): that says nothing about the code - the machinery is
+			// broken, which is exit 3, never a VIOLATION
+			illFormed = append(illFormed, ob.Name+": "+errText)
 			continue
 		}
 		violations++
@@ -466,6 +474,16 @@ func runCheck(args []string) int {
 	broken := ""
 	if len(vacuous) > 0 {
 		broken = "vacuous hypotheses (canary proved): " + strings.Join(vacuous, ", ")
+	}
+	if len(e.cs.SmtDup) > 0 {
+		broken = "spec function(s) defined more than once in the loaded contract files: " + strings.Join(dedupe(e.cs.SmtDup), ", ")
+	}
+	if len(illFormed) > 0 {
+		n := len(illFormed)
+		if n > 3 {
+			illFormed = illFormed[:3]
+		}
+		broken = fmt.Sprintf("%d verification conditions were rejected by every solver as ill-formed: %s", n, strings.Join(illFormed, " | "))
 	}
 	if total == 0 || (cfg.MinObl > 0 && total < cfg.MinObl && len(drift) == 0) {
 		broken = fmt.Sprintf("only %d obligations generated (expected at least %d)", total, cfg.MinObl)
@@ -595,6 +613,35 @@ func runCheck(args []string) int {
 		}
 	}
 	return exit
+}
+
+// solverRejected: the obligation is undecided only because every solver answered with an error
+// (not sat, unknown or a time-out) on each of its open VCs; returns the first error line.
+func solverRejected(ob *Obligation) string {
+	msg := ""
+	for _, vc := range ob.VCs {
+		if vc.Result == "unsat" {
+			continue
+		}
+		if vc.Result == "sat" || vc.Solver == "" {
+			return ""
+		}
+		for _, p := range strings.Split(vc.Solver, ",") {
+			if !strings.HasSuffix(strings.TrimSpace(p), "=error") {
+				return ""
+			}
+		}
+		if msg == "" {
+			msg = "solver error"
+			for _, l := range strings.Split(vc.Output, "\n") {
+				if strings.Contains(l, "error") {
+					msg = strings.TrimSpace(l)
+					break
+				}
+			}
+		}
+	}
+	return msg
 }
 
 // replay writes the replay file for a failed obligation and runs the driver (if any).
